@@ -729,7 +729,12 @@ class MainTransformer(object):
 
         caller_allocates = False
         annotated_direction = None
-        if ANN_INOUT in annotations:
+        if isinstance(node, ast.Return):
+            # (in), (out) and (inout) on a return value have been reported by
+            # the annotation parser; its direction is not the user's to change
+            # (an (array length=) would pass it on to the length parameter)
+            pass
+        elif ANN_INOUT in annotations:
             annotated_direction = ast.PARAM_DIRECTION_INOUT
         elif ANN_OUT in annotations:
             annotated_direction = ast.PARAM_DIRECTION_OUT
@@ -1746,6 +1751,7 @@ method or constructor of some type."""
         """Pass 3 is after we've loaded GType data and performed type
         closure."""
         if isinstance(node, ast.Callable):
+            self._pass3_callable_references(node)
             self._pass3_callable_callbacks(node)
             self._pass3_callable_throws(node)
             self._pass3_callable_async_finish(node)
@@ -1897,6 +1903,29 @@ method or constructor of some type."""
                     method.sync_func = candidate_method.name
                     candidate_method.async_func = method.name
                     break
+
+    def _pass3_callable_references(self, node):
+        """(closure), (destroy) and (array length=) can only name a parameter
+        that has an index in the GIR: neither the instance parameter nor the
+        trailing GError** (which _pass3_callable_throws removes) has one."""
+        names = [param.argname for param in node.parameters]
+        if node.parameters and node.parameters[-1].type.ctype == 'GError**':
+            names.pop()
+
+        def check(name, what):
+            if name is None or name in names:
+                return name
+            message.warn_node(node,
+                'invalid "%s" annotation: "%s" is the instance parameter or the '
+                'GError** parameter of %s and cannot be referred to' % (what, name, node.name))
+            return None
+
+        for param in node.all_parameters:
+            param.closure_name = check(param.closure_name, ANN_CLOSURE)
+            param.destroy_name = check(param.destroy_name, ANN_DESTROY)
+        for typed in node.all_parameters + [node.retval]:
+            if isinstance(typed.type, ast.Array):
+                typed.type.length_param_name = check(typed.type.length_param_name, ANN_ARRAY)
 
     def _pass3_callable_callbacks(self, node):
         """Check to see if we have anything that looks like a
